@@ -14,15 +14,16 @@ dependency.  Such trees are not produced by `resolve` (see below) nor by sound r
 
 `C09_on_resolve_trees` closes the chain for the trees `resolve` returns (they satisfy all four
 hypotheses, by the store invariant: derived terms are `priorCause` results).
-Open: "never panics on a tree produced by resolve": proved is `C09_no_panic_partial` (no `NoVersions`
-leaf next to a `NotRoot` leaf ⇒ no panic); that resolve never produces such a pair needs a solver
-invariant.  Covered by the correspondence (every NoSolution tree of the scope is collapsed by the real
-code and by the model and re-checked semantically by the oracle).
+"Never panics on a tree produced by resolve": `C09_no_panic_unless_noVersions_beside_notRoot` (the only
+panic site of `collapse_no_versions` is a `NoVersions` leaf next to a `NotRoot` leaf) and
+`C09_no_panic_on_resolve_trees` (resolve never produces such a pair: a run-level invariant of the store,
+PubgrubProofs/CollapseNoPanic*.lean); for `Range` over any linear order: `C09_range_no_panic_on_resolve_trees`.
 -/
 import PubgrubProofs.CollapseSound
 import PubgrubProofs.TreeLink
 import PubgrubProofs.CollapseNoPanic
 import PubgrubProofs.RangeAnyOrder2
+import PubgrubProofs.ReportCollapsed
 
 namespace Pubgrub.C09
 open Pubgrub
@@ -56,7 +57,7 @@ theorem C09_identity (t : DerivationTree P S V M)
   collapse_identity t h
 
 /-- the only panic is a `NoVersions` leaf next to a `NotRoot` leaf -/
-theorem C09_no_panic_partial (t : DerivationTree P S V M) (h : ¬ t.NoVersionsBesideNotRoot) :
+theorem C09_no_panic_unless_noVersions_beside_notRoot (t : DerivationTree P S V M) (h : ¬ t.NoVersionsBesideNotRoot) :
     ∃ t', t.collapseNoVersions = .ok t' :=
   collapse_no_panic_partial t h
 
@@ -102,5 +103,17 @@ theorem C09_range_on_resolve_trees
   by apply range_C09_on_resolve_trees (P := P) (V := V) (M := M) (Pr := Pr) (E := E) <;> assumption
 
 end AnyOrder2
+
+section NoPanicAnyOrder
+variable {P V M Pr E : Type} [DecidableEq P] [LinearOrder V] [LE Pr] [DecidableLE Pr]
+
+theorem C09_range_no_panic_on_resolve_trees (W : World P (Range V) V M) (hW : W.RangesWF) (debug : Bool)
+    (fuel : Nat) (root : P) (rv : V) (s : SolverState P (Range V) V M Pr)
+    (tree : DerivationTree P (Range V) V M)
+    (h : Reachable (E := E) W debug fuel root rv (s, .noSolution tree)) :
+    ∃ t', tree.collapseNoVersions = .ok t' :=
+  range_collapse_no_panic W hW debug fuel root rv s tree h
+
+end NoPanicAnyOrder
 
 end Pubgrub.C09
